@@ -7515,11 +7515,18 @@ fn is_running_loop(expr_state: ExpressionState, expr: &Expression) -> bool {
 }
 
 fn eval_break(env: &mut Env, expr_value_is_used: bool) {
+    // Loops always evaluate to unit. This is pushed for the loop we
+    // break out of, if its value is used; `break` itself only has a
+    // value to push when there's no enclosing loop.
+    let mut loop_value_is_used = expr_value_is_used;
+
     // Pop all the currently evaluating expressions until we are no
     // longer inside the innermost loop.
     while let Some((expr_state, expr)) = env.current_frame_mut().exprs_to_eval.pop() {
         match &expr.expr_ {
             Expression_::While(_, _) if is_running_loop(expr_state, &expr) => {
+                loop_value_is_used = expr.value_is_used;
+
                 // If we're leaving the loop body, pop its bindings
                 // block, as the `DoneRunBlock` step would have done.
                 if pending_step_owns_block(expr_state, &expr) {
@@ -7533,6 +7540,8 @@ fn eval_break(env: &mut Env, expr_value_is_used: bool) {
                 break;
             }
             Expression_::ForIn(_, _, _) if is_running_loop(expr_state, &expr) => {
+                loop_value_is_used = expr.value_is_used;
+
                 // We're exiting the loop early, we need to follow the
                 // pattern of `eval_for_in` and maintain stack
                 // discipline for values pushed for the loop body.
@@ -7576,8 +7585,7 @@ fn eval_break(env: &mut Env, expr_value_is_used: bool) {
         }
     }
 
-    // Loops always evaluate to unit.
-    if expr_value_is_used {
+    if loop_value_is_used {
         env.push_value(Value::unit());
     }
 }
